@@ -247,11 +247,47 @@ class Profiles:
         # save
         self._usedMacros = macros
 
+    def _state(self):
+        "what addProfile(s)/removeProfile change, to put it back if they fail"
+        return (
+            list(self._profileNames),
+            {
+                name: {k: v.copy() for k, v in raw.items()}
+                for name, raw in self._rawProfiles.items()
+            },
+            dict(self._profilesProperties),
+            dict(self._usedMacros),
+            list(getattr(self, '_knownNames', ())),
+        )
+
+    def _restore(self, state):
+        self._profileNames[:] = state[0]
+        self._rawProfiles.clear()
+        self._rawProfiles.update(state[1])
+        self._profilesProperties.clear()
+        self._profilesProperties.update(state[2])
+        self._usedMacros = state[3]
+        self._knownNames = state[4]
+
     def addProfiles(self, profiles):
         """Add a list of profiles at once. Useful as if profiles define custom
         macros these are used in one go. Using `addProfile` instead my be
         **very** slow instead.
+
+        If one of the profiles cannot be added (e.g. it uses a macro which
+        is not defined) none is and the registry is left as it was.
         """
+        state = self._state()
+        try:
+            self._addProfiles(profiles)
+        except Exception:
+            self._restore(state)
+            raise
+
+    def _addProfiles(self, profiles):
+        # a name given twice: the later definition replaces the earlier one
+        profiles = list({p[0]: p for p in profiles}.values())
+
         # replace profiles with the same name
         for profile, properties, macros in profiles:
             if profile in self._profileNames:
@@ -297,7 +333,18 @@ class Profiles:
             may be used in the given properties definitions. There are some
             predefined basic macros which may always be used in
             ``Profiles._TOKEN_MACROS`` and ``Profiles._MACROS``.
+
+        If the profile cannot be added (e.g. it uses a macro which is not
+        defined) the registry is left as it was.
         """
+        state = self._state()
+        try:
+            self._addProfile(profile, properties, macros)
+        except Exception:
+            self._restore(state)
+            raise
+
+    def _addProfile(self, profile, properties, macros=None):
         if profile in self._profileNames:
             # replace a profile with the same name
             self.removeProfile(profile)
@@ -325,7 +372,8 @@ class Profiles:
             'macros': macros.copy(),
         }
         # prepare and save properties
-        properties = self._expand_macros(properties, self._usedMacros)
+        # (a copy: the caller's dictionary stays as it was given)
+        properties = self._expand_macros(properties.copy(), self._usedMacros)
         self._profilesProperties[profile] = self._compile_regexes(properties)
 
         self.__update_knownNames()
@@ -345,6 +393,15 @@ class Profiles:
             - ``cssutils.profiles.NoSuchProfileException``:
               If given `profile` cannot be found.
         """
+        state = self._state()
+        try:
+            self._removeProfile(profile, all)
+        except Exception:
+            # e.g. a remaining profile uses a macro of the removed one
+            self._restore(state)
+            raise
+
+    def _removeProfile(self, profile=None, all=False):
         if all:
             self._profilesProperties.clear()
             self._rawProfiles.clear()
@@ -446,8 +503,9 @@ class Profiles:
             elif isinstance(profiles, str):
                 profiles = (profiles,)
             for profilename in reversed(profiles):
-                # check given profiles
-                if name in self._profilesProperties[profilename]:
+                # check given profiles (a name which is not registered, e.g.
+                # a removed one still among the defaults, defines nothing)
+                if name in self._profilesProperties.get(profilename, ()):
                     validate = self._profilesProperties[profilename][name]
                     try:
                         if validate(value):
